@@ -2,11 +2,14 @@ package main
 
 import (
 	"encoding/json"
+	"errors"
 	"fmt"
 	"math"
 	"reflect"
 	"strconv"
 	"strings"
+	"time"
+	"unicode/utf8"
 
 	bexpr "github.com/hashicorp/go-bexpr"
 )
@@ -270,7 +273,7 @@ func runC02(r *Run) {
 					check("bool", w.w, w.d, selOf(w.w), sp, rel, want)
 				}
 			}
-			for _, bad := range []string{"yes", "2", `""`, "tRUE", `"1.0"`} {
+			for _, bad := range []string{"yes", "2", `""`, "tRUE", `"1.0"`, "falsE", "FALSe", "tRue", "`tRUE`", `"fALSE"`, "Tr", "no", "on", "y"} {
 				check("bool", "direct", map[string]interface{}{"v": x}, "v", bad, "invalid-literal", "E")
 			}
 		}
@@ -300,6 +303,22 @@ func runC02(r *Run) {
 			d := map[string]interface{}{"v": json.Number(jn.num)}
 			rel := map[string]string{"T": "same", "F": "different", "E": "invalid-literal"}[jn.want]
 			check("json.Number", "direct", d, "v", jn.lit, rel, jn.want)
+		}
+		// types with String / Error / MarshalText methods compare by kind and content like any other named type
+		for _, t := range []struct {
+			kind string
+			v    interface{}
+			lit  string
+			want string
+		}{
+			{"Dur", Dur(1000000000), "1000000000", "T"}, {"Dur", Dur(1000000000), `"0x3b9aca00"`, "T"}, {"Dur", Dur(1000000000), `"1_000_000_000"`, "T"}, {"Dur", Dur(1000000000), `"1s"`, "E"}, {"Dur", Dur(1000000000), "1", "F"},
+			{"time.Duration", time.Second, "1000000000", "T"}, {"time.Duration", time.Second, `"1s"`, "E"}, {"Lvl", Lvl("warn"), "warn", "T"}, {"Lvl", Lvl("warn"), `"level-warn"`, "F"}, {"LvlI", LvlI(2), "2", "T"}, {"LvlI", LvlI(2), "warn", "E"},
+			{"BoolM", BoolM(true), "true", "T"}, {"BoolM", BoolM(true), "on", "E"}, {"F64M", F64M(1.5), "1.5", "T"}, {"F64M", F64M(1.5), "f", "E"}, {"PtS", PtS{}, "origin", "E"}, {"Leaky", Leaky{Name: "n"}, "`n  `", "E"}, {"error", errors.New("boom"), "boom", "E"},
+		} {
+			for _, w := range wrap(t.kind, t.v) {
+				rel := map[string]string{"T": "same", "F": "different", "E": "invalid-literal"}[t.want]
+				check(t.kind, w.w, w.d, selOf(w.w), t.lit, rel, t.want)
+			}
 		}
 		// equality against non-scalars is an error
 		for _, v := range []interface{}{nil, []int{1}, map[string]int{"a": 1}, S1{}, [1]int{1}, make(chan int), complex(1, 1), uintptr(1), func() {}} {
@@ -696,6 +715,7 @@ func runC06(r *Run) {
 			r.Model(cu.cmd(), ou, cu.desc())
 		}
 	}
+	c06EmptyPointer(r)
 	// index / key variables are the position / key itself
 	for _, t := range []struct{ e, want string }{
 		{"all l as i, v { i != 7 and v != 7 }", "T"}, {"any l as i, _ { i == 2 }", "T"}, {"any l as i, _ { i == 3 }", "F"}, {"all m as k, v { k == a or k == b }", "T"}, {"any m as k { k == b }", "T"}, {"any m as k { k == zz }", "F"},
@@ -783,6 +803,19 @@ func spellings(parts []string) []string {
 			return ""
 		}
 		return "`" + p + "`"
+	}, true); ok {
+		out = append(out, s)
+	}
+	// a carriage return inside back quotes is not part of the string (Go's raw-string rule, which Unquote applies)
+	if s, ok := esc(func(p string) string {
+		if strings.ContainsAny(p, "`\r") || !validUTF8(p) {
+			return ""
+		}
+		k := len(p) / 2
+		for k < len(p) && !utf8.RuneStart(p[k]) {
+			k++
+		}
+		return "`" + p[:k] + "\r" + p[k:] + "\r`"
 	}, true); ok {
 		out = append(out, s)
 	}
@@ -884,6 +917,7 @@ func c07Colliding(r *Run) {
 func runC07(r *Run) {
 	c07BoundVariables(r)
 	c07Colliding(r)
+	c07WhitespaceTwins(r)
 	r.Rule = "paths taken from random data whose parts are expressible in at least two spellings (dotted, .digits, [\"...\"], [`...`], JSON Pointer with ~0/~1, mixed within one selector) x operator templates (match, quantified collection, inside a quantifier body) x data; predicate on the implementation: the parser yields the same Path for every spelling and Evaluate the same outcome; exact (case-sensitive, untrimmed) matching of parts against keys and field names; all spellings also compared with the model; distinct = (number of parts, spelling set, template, outcome)"
 	n := 1200
 	if r.Tier == "thorough" {
@@ -1226,6 +1260,7 @@ func runC08(r *Run) {
 			}
 		}
 	}
+	c08TagNameAndMethods(r)
 	// a hidden field's content is never the value a selector resolves to; a renamed field only under its tag
 	d := S5{Sec: "secret", priv: "secret", Ren: "r", SecS: S5b{Name: "secret"}}
 	for _, t := range []struct{ e, tag, want string }{
@@ -1302,6 +1337,7 @@ func runC14(r *Run) {
 	if r.Tier == "thorough" {
 		reps, n = 512, 6000
 	}
+	c14OddMaps(r, reps)
 	bodies := []string{"any m as _, v { v.x == 1 }", "all m as _, v { v.x == 1 }", "any m as k, v { v.x == 1 and k != zz }", "all m as k, v { v.x != 1 or k == a }", "any m as k { k == b }",
 		"any m as _, v { v == 5 }", "all m as _, v { v is not empty }", "any m as _, v { any v as _, w { w == 1 } }", "not any m as _, v { v.x == 2 }", "any m as _, v { v.x == 1 } or any m as _, v { v.x == 2 }",
 		"any o.m as _, v { v.x == 1 }", "all m as k, _ { k matches `^[a-d]$` }",
